@@ -346,6 +346,56 @@ theorem pub_subset_run {w : Bool} {cl : Client α κ σ} {s t : State α κ σ} 
       simp only [ha] at h
       exact fun x hx => ih h x (pub_subset_apply ha x hx)
 
+/-! ### `heads/` never lists a name twice -/
+
+theorem nodup_insertHead {t : α} {hs : List α} (h : hs.Nodup) : (insertHead t hs).Nodup := by
+  unfold insertHead
+  split
+  · exact h
+  · rename_i hn
+    refine List.nodup_append.mpr ⟨h, by simp, ?_⟩
+    intro a ha b hb
+    simp only [List.mem_singleton] at hb
+    subst hb
+    exact fun e => hn (e ▸ ha)
+
+theorem nodup_heads_apply {w : Bool} {cl : Client α κ σ} {s t : State α κ σ} {e : Event α κ}
+    (hn : s.heads.Nodup) (h : apply w cl s e = some t) : t.heads.Nodup := by
+  cases e with
+  | step pid arg =>
+    obtain ⟨p, _, k⟩ := stepProc_inv h
+    cases k with
+    | lock _ _ hh _ _ => rw [hh]; exact hn
+    | add _ _ _ _ hh _ _ => rw [hh]; exact nodup_insertHead hn
+    | rms _ _ _ _ _ _ _ hh _ _ => rw [hh]; exact List.Nodup.sublist List.filter_sublist hn
+    | client _ _ _ _ _ _ hh _ _ => rw [hh]; exact hn
+  | start pid prog =>
+    simp only [apply] at h
+    cases hp : s.procs[pid]? with
+    | none => simp [hp] at h
+    | some p =>
+      simp only [hp] at h
+      split at h
+      · simp only [Option.some.injEq] at h; subst h; exact hn
+      · simp at h
+  | crash pid =>
+    simp only [apply] at h
+    cases hp : s.procs[pid]? with
+    | none => simp [hp] at h
+    | some p => simp only [hp, Option.some.injEq] at h; subst h; exact hn
+
+theorem nodup_heads_run {w : Bool} {cl : Client α κ σ} {s t : State α κ σ} {es : List (Event α κ)}
+    (hn : s.heads.Nodup) (h : run w cl s es = some t) : t.heads.Nodup := by
+  induction es generalizing s with
+  | nil => simp only [run, Option.some.injEq] at h; subst h; exact hn
+  | cons e es ih =>
+    simp only [run] at h
+    cases ha : apply w cl s e with
+    | none => simp [ha] at h
+    | some u =>
+      simp only [ha] at h
+      exact ih (nodup_heads_apply hn ha) h
+
 /-! ### an update executed without interference -/
 
 /-- `heads/` after `add t; remove olds` ran to completion with nobody else moving -/
